@@ -67,6 +67,9 @@ def run(rep, tier, rng):
         cases.append(("v%d" % i, "display", ["std", gen(rng, rng.randrange(0, 6), reals)]))
     for k, e in enumerate(INTS + RATS + REALS[:-1] + CHARS + SYMS + BOOLS):
         cases.append(("a%d" % k, "display", ["std", e]))
+    # LARGE values: hundreds of dotted pairs / sublists / vectors in one printed text
+    for k, e in enumerate(BIG_VALUES):
+        cases.append(("b%d" % k, "display", ["std", e]))
     impl = C.run_hx(cases)
     model = C.run_driver(cases)
     texts = {}
@@ -95,6 +98,14 @@ def run(rep, tier, rng):
             if len(b) != 3 or b[0] != a[0] or norm(b[1]) != norm(a[1]) or norm(b[2]) != norm(a[2]):
                 rep.violation({"broken": "correspondence Prim.display / reader <-> Display impls / reader", "expression": f[1],
                                "implementation": a, "model": b}, no_input=True)
+
+
+BIG_VALUES = [
+    "((lambda (mk) (mk mk 0 '())) (lambda (self i acc) (if (= i 300) acc (self self (+ i 1) (cons (cons i (* i i)) acc)))))",
+    "((lambda (mk) (mk mk 0 '())) (lambda (self i acc) (if (= i 300) acc (self self (+ i 1) (cons (list i (cons i i)) acc)))))",
+    "((lambda (mk) (mk mk 0 '())) (lambda (self i acc) (if (= i 300) acc (self self (+ i 1) (cons (vector i (cons 'k i)) acc)))))",
+    "((lambda (mk) (mk mk 0 'end)) (lambda (self i acc) (if (= i 400) acc (self self (+ i 1) (cons i acc)))))",
+]
 
 
 def main(tier, seed):
